@@ -16,11 +16,14 @@ CLAIMED = {
                  'registry and check/apply resolution re-checked by the kernel against tables regenerated from the '
                  'source; the executable model of reduce() (the same functions the theorems speak about) is compared '
                  'with the real reduce() on seeded well-typed expressions and the dense-matrix oracle is evaluated on '
-                 'the implementation.'),
+                 'the implementation.'
+                 ' CLOSED: in the faithful list denotation (operators as maps on flat real vectors assembled from the executable kernels the driver runs) all leaf laws are theorems, so reduce_sound_closed has no semantic hypothesis left.'),
         'note': ('Trusted: Lean kernel + propext/Classical.choice/Quot.sound; harness encoder/translator; JAX '
-                 'primitives (A1, A2), exact lazy inverse (A4, part of WTExpr: A.invertible); the leaf laws of '
-                 'RuleLaws/ContainerLaws are hypotheses of reduce_sound, established for the implementation by the '
-                 'kernel theorems of C10/C12/C13/C16 and by the dense oracle, not by one closed denotation.'),
+                 'primitives (A1, A2), exact lazy inverse (A4, part of WTExpr: A.invertible).  The leaf laws of '
+                 'RuleLaws/ContainerLaws are hypotheses of the abstract reduce_sound and THEOREMS in the list denotation '
+                 '(reduce_sound_closed); what ties the list denotation to furax is that it is assembled from the kernels '
+                 'the correspondence checks of C11/C12/C13/C15 compare with the implementation. Real arithmetic, not '
+                 'floating point.'),
         'technique': 'Lean 4 proof (induction on fuel/chain) + differential correspondence of the executable model',
         'design_ref': '§5 C01',
     },
@@ -43,7 +46,8 @@ CLAIMED = {
                  'identity absorption, scalar merging, A.I@A and A@A.I); incompatible structures are rejected. Which '
                  'function each dunder resolves to for each class, and the class hierarchy the model tests, are '
                  're-checked by the kernel against tables regenerated from the source.  Each step of random expression '
-                 'trees is compared between executable model and implementation; dense-matrix oracle on the implementation.'),
+                 'trees is compared between executable model and implementation; dense-matrix oracle on the implementation.'
+                 ' CLOSED corollaries in the list denotation: matmul/add/rmul/truediv_den_closed.'),
         'note': ('Trusted: Lean kernel + standard axioms; encoder/translator; ArithSem laws (composition denotes the '
                  'composite, sums add, a lazy inverse of an invertible operand inverts — F13 is the failure of this law for '
                  'singular diagonals and is a listed known finding of C01).  Negation of a sum is checked differentially only.'),
@@ -128,7 +132,8 @@ CLAIMED = {
                  'configuration captured at creation whatever happens later, and for every interleaving of several contexts '
                  'each context evolves as if run alone.  Real `with Config(...)` statements (real exceptions) are executed '
                  'in real threads under a seeded scheduler and every observation is compared with the state machine; real '
-                 'solves show which settings a lazy inverse uses.'),
+                 'solves show which settings a lazy inverse uses.'
+                 ' The state machine also covers Config objects built ahead of time and entered later, and a jit trace cache keyed on the captured configuration (jit_uses_creation_config).'),
         'note': ('PARTIAL with respect to OS scheduling: the theorem covers all interleavings of the abstract events; real '
                  'threads are sampled. Trusted: Lean kernel + standard axioms; A6 (contextvars semantics).'),
         'technique': 'Lean 4 proof (induction over well-nested histories / interleavings) + differential correspondence in real threads',
@@ -229,7 +234,8 @@ CLAIMED = {
                  'hand-written transpose is a theorem about its kernel: QU rotation, gather/scatter-add, einsum subscript '
                  'rewriting, move-axis permutation inverse, Toeplitz self-adjointness, block row/column/diagonal.  The form of '
                  '.T is compared with the implementation on random expressions and per-class operators; dense(A.T) = dense(A)ᵀ, '
-                 '<Ax,y> = <x,A.T y>, swapped structures and A.T.T are checked on the implementation.'),
+                 '<Ax,y> = <x,A.T y>, swapped structures and A.T.T are checked on the implementation.'
+                 ' CLOSED: transpose_is_adjoint_closed — <Ax,y> = <x,A.T y> in the list denotation for every valid expression incl. lazy inverses and block containers, A.T being the form transposeOp builds.'),
         'note': ('Trusted: Lean kernel + Mathlib + standard axioms; A2 (jax.linear_transpose is the exact adjoint) for the '
                  'generic TransposeOperator — it enters as part of the hypothesis LeafAdjoint and is re-checked by the '
                  'dense-matrix oracle. Transposes of the solver-based inverse are excluded, as the property says.'),
@@ -244,7 +250,8 @@ CLAIMED = {
                  'homogeneous operators are homogeneous.  On the implementation the specialised as_matrix, the generic as_matrix '
                  'and the column-by-column matrix are compared for every overriding class and composites, together with '
                  'linearity and op(x) = M·flatten(x) on integer data; the diagonal and Toeplitz overrides are also compared '
-                 'with the model kernels.'),
+                 'with the model kernels.'
+                 ' CLOSED (Props/C04Closed.lean): application is additive and homogeneous for every operator expression, op(x) = as_matrix()·x through Mathlib linear maps, faithfulness, matrices of compositions, sums and lazy inverses.'),
         'note': ('Trusted: Lean kernel + Mathlib + standard axioms; the identification of an operator on flattened pytrees '
                  '(leaves in pytree order, row-major) with a linear map (Fin n → R) → (Fin m → R); per-class linearity is the '
                  'law `homogeneous` of OpSem plus additivity, checked on the implementation.'),
@@ -260,7 +267,8 @@ CLAIMED = {
                  'move-axis permutation) and the promotion join are theorems of C13/C20.  The model\'s structures and sizes are '
                  'compared with the real ones on random expressions over float32/float64/mixed pytrees in both 64-bit modes; '
                  'jax.eval_shape(mv) = out_structure(), sizes, promoted dtypes, transposes and reduced operators are checked on '
-                 'the implementation.'),
+                 'the implementation.'
+                 ' CLOSED: reduce_keeps_structures_closed, declared_sizes_honest (every structurally well-formed operator returns as many entries as out_structure() declares, whatever the input).'),
         'note': ('Trusted: Lean kernel + standard axioms; jax.eval_shape as the reference for what mv returns; leaves report '
                  'their declared structures to the model (their honesty is the oracle part). Claimed for parameters no wider '
                  'than the data dtype, as the property states.'),
@@ -275,7 +283,8 @@ CLAIMED = {
                  '(field), diagonal Moore-Penrose pseudo-inverse without division by zero, QU rotation RᵀR = I, move-axis '
                  'round trip, block-wise products.  The form of .I and .I.I is compared with the implementation; A.I(A x) = x = '
                  'A(A.I x), Moore-Penrose identities, NaN/Inf scan, as_matrix of inverses and SPD solves under two solver '
-                 'settings are checked on the implementation.'),
+                 'settings are checked on the implementation.'
+                 ' CLOSED: closed_form_inverse_inverts — the form inverseOp builds inverts on both sides for every class with a closed form and block-diagonal nestings of them; Moore-Penrose identities for arbitrary diagonals.'),
         'note': ('PARTIAL: "A.I(y) solves A z = y to the configured tolerance" is numerical convergence of lineax CG (A4), '
                  'checked differentially on SPD operators with condition number ≤ 100. Trusted: Lean kernel + Mathlib + '
                  'standard axioms; translator/encoder.'),
